@@ -696,6 +696,12 @@ func (t *Teamserver) EventBroadcast(ExceptClient string, pk packager.Package) {
 
 	t.Clients.Range(func(key, value any) bool {
 		ClientID := key.(string)
+
+		// a connection that has not logged in gets nothing
+		if client, ok := value.(*Client); !ok || !client.Authenticated {
+			return true
+		}
+
 		if ExceptClient != ClientID {
 			err := t.SendEvent(ClientID, pk)
 			if err != nil && !strings.Contains(err.Error(), "use of closed network connection") {
